@@ -21,6 +21,7 @@ TECHNIQUE = ("deterministic simulation: seeded search over schedules, mailbox "
              "event")
 RULE += (' Two of eight configurations make both sides dilate as well (dilate-N control messages share the mailbox with application phases).')
 RULE += (' Two further configurations hold long conversations (11..16 messages each way, phase numbers with two digits) on a reordering server.')
+RULE += (' In some configurations clients are pipelined readers (1..3 get_message() Deferreds outstanding, re-issued from each callback).')
 LEVEL_TEXT = ("Seeded exploration (no enumeration) of two real clients + real "
               "mailbox server under a simulated reactor/network; safety oracle "
               "evaluated after every simulated event. Evidence, not proof: a "
